@@ -38,6 +38,10 @@ class MachineryError(Exception):
     """The check itself could not run (exit 2; never reported as a violation)."""
 
 
+class ModelTimeout(Exception):
+    """The extracted model did not answer: counted as a broken correspondence."""
+
+
 def sh(cmd, timeout, cwd=None, env=None, input=None):
     e = dict(os.environ)
     if env:
@@ -183,13 +187,13 @@ class ModelProc:
         self.p.stdin.write(" ".join(str(int(i)) for i in ints) + "\n")
         self.p.stdin.flush()
         import select
-        ready, _, _ = select.select([self.p.stdout], [], [], 300)
+        ready, _, _ = select.select([self.p.stdout], [], [], 60)
         if not ready:
             self.p.kill()
-            raise MachineryError(f"model driver {self.exe} did not answer within 300 s on input {ints[:40]}")
+            raise ModelTimeout(f"model driver {self.exe} did not answer within 60 s on input {ints[:60]}")
         line = self.p.stdout.readline()
         if not line:
-            raise MachineryError(f"model driver {self.exe} died on input {ints[:40]}")
+            raise ModelTimeout(f"model driver {self.exe} died on input {ints[:60]}")
         line = line.strip()
         return [int(x) for x in line.split()] if line else []
 
@@ -409,6 +413,7 @@ class Check:
         elif self.extract_v:
             corr_broken.append("model not available (does not compile)")
 
+        state = {"model": model}
         ev = {"evaluations": 0, "distinct": set(), "samples": [], "dist": {}, "corr_compared": 0}
         diffs, viols = [], []
         sig_count = {}
@@ -425,12 +430,22 @@ class Check:
             if len(ev["samples"]) < 4 and (ev["evaluations"] % 97 == 1):
                 ev["samples"].append({"case": case, "impl": res})
             self.distribution(case, res, ev["dist"])
-            enc = self.encode(case) if model is not None else None
+            enc = self.encode(case) if state["model"] is not None else None
             if enc is not None:
-                mres = self.decode(case, model.query(enc))
-                ev["corr_compared"] += 1
-                if canon(mres) != canon(res):
-                    if len(diffs) < 50:
+                try:
+                    t_q = time.time()
+                    mres = self.decode(case, state["model"].query(enc))
+                    state["t_model"] = state.get("t_model", 0.0) + time.time() - t_q
+                    if state["t_model"] > (900 if tier == "quick" else 3600):
+                        raise ModelTimeout(f"the extracted model used more than {int(state['t_model'])} s in all (last input {enc[:60]})")
+                except ModelTimeout as ex:
+                    corr_broken.append(str(ex)[:400])
+                    diffs.append({"case": case, "impl": res, "model": "no answer (diverges or dead)", "source": source})
+                    state["model"] = None
+                    mres = None
+                if mres is not None:
+                    ev["corr_compared"] += 1
+                    if canon(mres) != canon(res) and len(diffs) < 50:
                         diffs.append({"case": case, "impl": res, "model": mres, "source": source})
             for msg in self.oracle(case, res):
                 sig = self.signature(case, msg)
@@ -463,13 +478,17 @@ class Check:
         known = [f for f in load_known() if f.get("property") == self.pid and f.get("status") == "known"]
         out_lines, new_viol, known_hit = [], [], {}
         seen_sig = set()
+        t_shrink = time.time()
         for case, msg in viols:
             sig = self.signature(case, msg)
             if sig in seen_sig:
                 continue
             seen_sig.add(sig)
-            case, msg = self.shrink(case, msg)
             hit = next((f for f in known if self.known_match(f, case, msg)), None)
+            if hit is None and time.time() - t_shrink < 150:
+                # minimise (bounded: a few reports, two minutes in all), then look at the known findings again
+                case, msg = self.shrink(case, msg)
+                hit = next((f for f in known if self.known_match(f, case, msg)), None)
             if hit:
                 known_hit[hit["id"]] = hit
             else:
